@@ -5,7 +5,10 @@ Space: every `shape:*` model whose parameter table carries only length-type, SLD
 dimensionless units  x  two bases (the defaults; the "activated" base in which every non-SLD, non-angle
 parameter with default 0 is non-zero and every count-like parameter with default 1 is raised, so that
 parameters the defaults switch off take part)  x  every count parameter (n, n_shells, n_stacking, num_pearls,
-Nlayers, n_aggreg ...) at its smallest meaningful values (lower limit or 1, and 2)  x  parameter sets on each base (the base; each parameter
+Nlayers, n_aggreg ...) at its smallest meaningful values (lower limit or 1, and 2); the RATIO family: for every
+pair of length-typed parameters the two default values swapped and the second at {1/8, 1/2, 2, 8} x the first,
+every dimensionless "ratio" parameter inverted and at 1/8..8, each judged on a wide q menu q*length in
+{0.05, 0.7, 3, 20} for both lengths (so both sides of every ratio- or q*length-dependent branch are visited)  x  parameter sets on each base (the base; each parameter
 moved to two seed-rotated non-default values; thorough: every pair)  x  1-D / 2-D (oriented models)  x  lambda in {2, 0.5, 1.3}  x
 mu in {1.7, 0.5}  x  3 q points  (+ every effective-radius mode through call_Fq).
 
@@ -50,14 +53,21 @@ ASSUMPTIONS = [
     "real-valued inputs are represented by the finite tables in coverage.bounds",
 ]
 LAMBDAS = [2.0, 0.5, 1.3]
+RATIOS = [0.125, 0.5, 2.0, 8.0]        # ratio menu between two length-typed parameters (both orders)
+QR = [0.05, 0.7, 3.0, 20.0]            # q * (each of the two lengths): low-q and high-q branches are both judged
+AZIMUTH = 0.6
 MUS = [1.7, 0.5]
 BOUNDS = {
     "quick": {"D": 1, "lambda": LAMBDAS, "mu": MUS, "q1d": [0.011, 0.07, 0.31], "dims": "1d + 2d (oriented models)",
               "factors_per_parameter": 2, "bases": "defaults + activated (zero defaults on, counts raised)",
-              "counts": "every count parameter at max(lower limit, 1) and 2 on both bases", "exponent_search": "{-2..3}^k (k<=5) or <=2 rows off the declaration"},
+              "counts": "every count parameter at max(lower limit, 1) and 2 on both bases",
+              "ratio_family": {"ratios": RATIOS, "q*length": QR, "lambda": "1.3 (quick, 1-D) / all (thorough, 1-D + 2-D, activated base)"},
+              "exponent_search": "{-2..3}^k (k<=5) or <=2 rows off the declaration"},
     "thorough": {"D": 2, "lambda": LAMBDAS, "mu": MUS, "q1d": [0.011, 0.07, 0.31], "dims": "1d + 2d (oriented models)",
                  "factors_per_parameter": 2, "bases": "defaults + activated (zero defaults on, counts raised)",
-              "counts": "every count parameter at max(lower limit, 1) and 2 on both bases", "exponent_search": "{-2..3}^k (k<=5) or <=2 rows off the declaration"},
+              "counts": "every count parameter at max(lower limit, 1) and 2 on both bases",
+              "ratio_family": {"ratios": RATIOS, "q*length": QR, "lambda": "1.3 (quick, 1-D) / all (thorough, 1-D + 2-D, activated base)"},
+              "exponent_search": "{-2..3}^k (k<=5) or <=2 rows off the declaration"},
 }
 CASE_TIMEOUT = 600
 
@@ -70,6 +80,7 @@ UNIT_EXP = {"Ang": 1, "Ang^2": 2, "Ang^3": 3, "1/Ang": -1, "1/Ang^2": -2, "1/Ang
 EXP_UNIT = {1: "Ang", 2: "Ang^2", 3: "Ang^3", -1: "1/Ang", -2: "1/Ang^2", 0: "(dimensionless)", -3: "1/Ang^3"}
 SEARCH_EXPS = (-2, -1, 0, 1, 2, 3)
 RTOL = 1e-9
+RTOL_WIDE = 1e-6      # ratio family (extreme length ratios, q*length from 0.006 to 160)
 
 
 # ------------------------------------------------------------------------------------------------
@@ -223,6 +234,59 @@ def activation(ctx, info):
     return out
 
 
+def length_rows(info):
+    """rows declared as a plain length (exponent 1), not a vector-length control"""
+    return [(rid, names, p) for rid, u, names, ctl, p in rows(info)
+            if u != SLD_UNIT and UNIT_EXP.get(u) == 1 and not ctl and not p.choices and float(p.default) > 0]
+
+
+def ratio_rows(info):
+    """dimensionless rows that are described as a ratio (x_core, axis_ratio, b2a_ratio ...): inverted in the ratio family"""
+    return [(rid, names, p) for rid, u, names, ctl, p in rows(info)
+            if u != SLD_UNIT and UNIT_EXP.get(u, 1) == 0 and u not in ("degrees", "degree") and not ctl and not p.choices
+            and "ratio" in (p.description or "").lower() and float(p.default) > 0]
+
+
+def ratio_sets(ctx, info, pair, base):
+    """
+    parameter sets that put the two rows on the other side of every ratio-dependent branch: the two default values
+    swapped, and the second row at {1/8, 1/2, 2, 8} x (seed-rotated factor near 1) times the first.
+    For a single dimensionless ratio row: its inverse, and 1/8, 1/2, 2, 8.
+    Returns [(label, pars, (value a, value b))].
+    """
+    by_id = {rid: (names, p) for rid, u, names, ctl, p in rows(info)}
+    out = []
+
+    def put(label, va, vb):
+        pars = dict(base)
+        for rid, v in zip(pair, (va, vb)):
+            names, p = by_id[rid]
+            if not (p.limits[0] <= v <= p.limits[1]):
+                return
+            for n in names:
+                pars[n] = v
+        if pars != base and all(pars != o[1] for o in out):
+            out.append((label, pars, (va, vb)))
+    wob = [1.0, 1.1, 0.93, 1.21, 0.87, 1.05, 0.97, 1.16]
+    if len(pair) == 2:
+        da, db = base[by_id[pair[0]][0][0]], base[by_id[pair[1]][0][0]]
+        put("swap", db, da)
+        for k, rt in enumerate(RATIOS):
+            put("ratio", da, da * rt * ctx.rot(wob, k))
+    else:
+        d = base[by_id[pair[0]][0][0]]
+        names, p = by_id[pair[0]]
+        for k, v in enumerate([1.0 / d] + RATIOS):
+            v = v * (1.0 if k == 0 else ctx.rot(wob, k))
+            pars = dict(base)
+            if p.limits[0] <= v <= p.limits[1] and v != d:
+                for n in names:
+                    pars[n] = v
+                if all(pars != o[1] for o in out):
+                    out.append(("inverse" if k == 0 else "ratio", pars, (v,)))
+    return out
+
+
 def _q(dim, lam=1.0):
     if dim == "2d":
         q = np.array(Q2, float) / lam
@@ -257,6 +321,13 @@ def cases(ctx):
                 out.append({"model": m, "dim": dim, "vary": [n], "small": True})
                 if act:
                     out.append({"model": m, "dim": dim, "vary": [n], "small": True, "base": "activated"})
+            # ratio family: every pair of length rows swapped / at 1/8, 1/2, 2, 8; every ratio row inverted; wide q menu
+            if dim == "1d" or not ctx.quick:
+                lrows = [rid for rid, _, _ in length_rows(info)]
+                for a, b in itertools.combinations(lrows, 2):
+                    out.append({"model": m, "dim": dim, "ratio": [a, b]})
+                for rid, _, _ in ratio_rows(info):
+                    out.append({"model": m, "dim": dim, "ratio": [rid]})
             if act:
                 # second base: zero defaults switched on, counts raised; single moves on top of it in BOTH tiers
                 out.append({"model": m, "dim": dim, "vary": [], "base": "activated"})
@@ -271,10 +342,12 @@ def cases(ctx):
 class Ev(object):
     """memoising evaluator for one (model, dim)"""
 
-    def __init__(self, model, dim):
+    def __init__(self, model, dim, q=None):
         self.model, self.dim, self.info = model, dim, model.info
         self.kern = {}
         self.ncalls = 0
+        self.q = None if q is None else np.asarray(q, float)     # custom |q| list (ratio family): local tolerance
+        self.noise = self.noisy = None
 
     def for_dim(self, dim):
         """an evaluator of the same model for another q shape (the exponent search works in 1-D)"""
@@ -286,7 +359,13 @@ class Ev(object):
 
     def kernel(self, lam):
         if lam not in self.kern:
-            self.kern[lam] = self.model.make_kernel(_q(self.dim, lam))
+            if self.q is None:
+                qv = _q(self.dim, lam)
+            elif self.dim == "2d":
+                qv = [self.q * math.cos(AZIMUTH) / lam, self.q * math.sin(AZIMUTH) / lam]
+            else:
+                qv = [self.q / lam]
+            self.kern[lam] = self.model.make_kernel(qv)
         return self.kern[lam]
 
     def I(self, pars, lam=1.0):
@@ -315,11 +394,98 @@ def residual(ev, pars, lam, mu, exps, I0=None, power=3):
     d0, d1 = (I0 - bg) * k, I1 - bg
     if not (np.all(np.isfinite(d0)) and np.all(np.isfinite(d1))):
         return None, d1, d0
-    tol = RTOL * np.abs(d0) + 1e-11 * np.max(np.abs(d0)) + 1e-14 * abs(bg) * (1 + k) + 1e-300
+    if ev.q is None:
+        tol = RTOL * np.abs(d0) + 1e-11 * np.max(np.abs(d0)) + 1e-14 * abs(bg) * (1 + k) + 1e-300
+    else:
+        # wide q menu / extreme ratios: I spans up to 16 decades.  I = F^2 with F a sum of terms of size F(0), so
+        # rounding noise in I is ~ u * kappa * sqrt(I * I(0)); the slack 1e-11 sqrt(|I| max|I|) allows kappa ~ 1e5 and
+        # still resolves 1e-8 relative at I/I(0) = 1e-6.  Low q*length also cancels (x^-n series): relative 1e-6.
+        mx = np.max(np.abs(d0))
+        tol = RTOL_WIDE * np.abs(d0) + 1e-11 * np.sqrt(np.abs(d0) * mx) + 1e-14 * abs(bg) * (1 + k) + 1e-300
+        if ev.noise is not None:
+            # measured non-smoothness of the kernel itself at these q (see _run_ratio): 16 x the larger of two probes;
+            # q points at which the kernel is noisier than 1e-4 relative carry no verdict (ev.noisy)
+            tol = tol + 16.0 * k * ev.noise
+            tol = np.where(ev.noisy, np.inf, tol)
     return float(np.max(np.abs(d1 - d0) / tol)), d1, d0
 
 
+def _run_ratio(case, ctx):
+    r = R()
+    _SEARCH_DIR[0] = ctx.scratch
+    m = build.model(case["model"])
+    info = m.info
+    dim = case["dim"]
+    decl = declared(info)
+    base = defaults(info)
+    if not ctx.quick:
+        base.update(activation(ctx, info))      # thorough: on the activated base (counts raised, zero defaults on)
+    lams = [1.3] if ctx.quick else LAMBDAS
+    reported = set()
+    ncalls = 0
+    has_sld = any(u == SLD_UNIT for _, u, _, _, _ in rows(info))
+    default_order = None
+    by_id = {rid: names for rid, u, names, ctl, p in rows(info)}
+    if len(case["ratio"]) == 2:
+        default_order = base[by_id[case["ratio"][0]][0]] < base[by_id[case["ratio"][1]][0]]
+    for label, pars, vals in ratio_sets(ctx, info, case["ratio"], base):
+        # q menu relative to BOTH lengths (for a dimensionless ratio: relative to every length row of the model)
+        if len(case["ratio"]) == 2:
+            lens = list(vals)
+        else:
+            lens = sorted(set(pars[names[0]] for _, names, _ in length_rows(info)))
+            lens = [lens[0], lens[-1]] if lens else [50.0]
+        q = sorted(set(round(c / x, 12) for x in lens for c in QR))
+        ev = Ev(m, dim, q=q)
+        desc = "%s %s |q|=%s pars=%s" % (case["model"], dim, q, {k: v for k, v in sorted(pars.items())})
+        try:
+            I0 = ev.I(pars)
+        except Exception as exc:  # noqa
+            r.fail("%s: call_kernel raised %r" % (desc, exc), {"model": case["model"], "clause": "raises"})
+            continue
+        bg = pars["background"]
+        if not np.all(np.isfinite(I0)):
+            r.inconc("non-finite I at the unscaled point")
+            continue
+        # smoothness probe: some kernels cancel catastrophically at tiny q*length (binary_hard_sphere: 40 % scatter at
+        # q*R = 0.003); |I(q(1+eta)) - I(q)| beyond the smooth change eta*dI/dlnq is rounding noise of the kernel, not a
+        # statement about units
+        try:
+            Ia, Ib = ev.I(pars, 1.0 / (1.0 + 4e-9)), ev.I(pars, 1.0 / (1.0 - 7e-9))
+        except Exception:  # noqa
+            Ia = Ib = I0
+        with np.errstate(all="ignore"):
+            ev.noise = np.maximum(np.abs(Ia - I0), np.abs(Ib - I0))
+            ev.noise = np.where(np.isfinite(ev.noise), ev.noise, np.inf)
+            ev.noisy = ev.noise > 1e-4 * np.abs(I0 - bg)
+        if np.any(ev.noisy):
+            r.branch("noisy-q-excluded", int(np.sum(ev.noisy)))
+            r.branch("noisy:" + case["model"])
+            if np.all(ev.noisy):
+                r.inconc("kernel numerically noisy at every q of the set")
+                continue
+        nt = bool(np.any(np.abs(I0 - bg) > 0))
+        r.branch("ratio-set")
+        r.branch("ratio:" + label)
+        if default_order is not None and (vals[0] < vals[1]) != default_order and vals[0] != vals[1]:
+            r.branch("ratio-order-inverted")
+        for lam in lams:
+            _judge(r, ev, case, desc, pars, I0, lam, 1.0, decl, "lambda3", nt, reported, ctx)
+        if has_sld and not ctx.quick:
+            _judge(r, ev, case, desc, pars, I0, 1.0, MUS[0], decl, "mu2", nt, reported, ctx)
+        if dim == "1d":
+            # the min/max/diagonal branches of the effective-radius modes sit on the same ratios
+            _judge_sizes(r, ev, case, desc, pars, decl, reported, ctx, lams=lams)
+        ncalls += ev.ncalls
+    if not ncalls:
+        return r.ok(outcome="no-admissible-value", branches=["no-admissible-value"])
+    r.trans = ncalls
+    return r
+
+
 def run_case(case, ctx):
+    if "ratio" in case:
+        return _run_ratio(case, ctx)
     r = R()
     _SEARCH_DIR[0] = ctx.scratch
     m = build.model(case["model"])
@@ -504,15 +670,20 @@ def _sizes(ev, pars, exps, mode, lam):
     return out
 
 
+_SIZE_RTOL = [1e-12]
+
+
 def _size_ok(got, want):
-    return abs(got - want) <= 1e-12 * abs(want) + 1e-300
+    return abs(got - want) <= _SIZE_RTOL[0] * abs(want) + 1e-300
 
 
-def _judge_sizes(r, ev, case, desc, pars, decl, reported, ctx):
+def _judge_sizes(r, ev, case, desc, pars, decl, reported, ctx, lams=None):
     info = ev.info
     nmodes = len(info.radius_effective_modes or [])
+    # closed-form volumes cancel for extreme ratios (capped_cylinder: 2e-12): 1e-9 in the ratio family
+    _SIZE_RTOL[0] = 1e-9 if ev.q is not None else 1e-12
     for mode in range(0, nmodes + 1):
-        for lam in LAMBDAS:
+        for lam in (lams or LAMBDAS):
             try:
                 checks = _sizes(ev, pars, decl, mode, lam)
             except Exception as exc:  # noqa
@@ -758,6 +929,14 @@ def finish(ctx, report):
     report.require("count-small", 20, "count parameters at their smallest meaningful values")
     report.require("count-at-one", 8, "count parameters equal to one")
     report.require("count-parameters", 8, "distinct count parameters moved to their smallest values")
+    noisy = sorted(k[6:] for k in report.branches if k.startswith("noisy:"))
+    for k in [k for k in report.branches if k.startswith("noisy:")]:
+        del report.branches[k]
+    report.coverage["models_with_numerically_noisy_q_points_excluded"] = noisy
+    report.require("ratio-set", 300, "parameter sets of the ratio family (pairs of lengths swapped / at 1/8..8, ratios inverted)")
+    report.require("ratio-order-inverted", 100, "sets in which the order of two lengths is the opposite of the defaults")
+    report.require("ratio:swap", 50, "pairs of lengths with their default values swapped")
+    report.require("ratio:inverse", 3, "dimensionless ratio parameters inverted")
     report.require("activated-base", 50, "parameter sets on the activated base (zero defaults on, counts raised)")
     report.require("activated-parameters-influencing-I", 4, "activated parameters that influence I")
     report.branches["rescaled-parameters-exercised"] = len(sens)
